@@ -56,11 +56,16 @@ Fixpoint zlookup (k : aset) (l : list (aset * Z)) : Z :=
   | (k', z) :: r => if aset_eqb k k' then z else zlookup k r
   end.
 
-(** Builder.filter followed by <aggregator>.measure *)
-Definition s_measure (c : scfg) (a : aset) (v : Z) (st : sstate) : sstate :=
+(** Builder.filter followed by <aggregator>.measure (for a measurement that is not discarded) *)
+Definition s_record (c : scfg) (a : aset) (v : Z) (st : sstate) : sstate :=
   let fa := set_filter (s_filter c) a in
   let key := limiter (s_limit c) fa (map fst (st_vals st)) in
   {| st_vals := upsert key (fun old => step (s_kind c) old v) (st_vals st); st_rep := st_rep st |}.
+
+(** expoHistogram.measure returns early on NaN / infinities, before the limiter is consulted:
+    the attribute set is not even admitted. *)
+Definition s_measure (c : scfg) (a : aset) (v : Z) (st : sstate) : sstate :=
+  if ignores (s_kind c) v then st else s_record c a v st.
 
 (** <aggregator>.delta / .cumulative: the reported points and the next state. *)
 Definition s_collect (c : scfg) (st : sstate) : points * sstate :=
